@@ -168,6 +168,27 @@ pub fn run(r: &mut Report) {
             }
         }
     }
+    {   // file names: every name the step's glob can match - the 8-character field holds multi-byte characters, dots, blanks and
+        // ".link" repeats at every position, for plain, multi-byte and dotted step names; content is a well-formed signed link
+        let mut fields: Vec<String> = vec!["xxx.link".into(), ".link.li".into(), "........".into(), "        ".into(), "link.lin".into()];
+        for sp in ['\u{e9}', '\u{20ac}', '\u{1f600}', '.', ' ', '\u{301}'] {
+            for pos in 0..8 { let mut f: Vec<char> = "0123abcd".chars().collect(); f[pos] = sp; fields.push(f.into_iter().collect()); }
+            fields.push(std::iter::repeat(sp).take(8).collect());
+        }
+        for sname in ["a", "\u{e9}t\u{e9}", "a.b", "x.link", "0123abcd"] {
+            let lay_n = signed_layout(&layout(vec![step(sname, 1, &[&ka], allow_all(), allow_all())], vec![], &[&ka], 30), &[&owner]);
+            let good = serde_json::to_vec(&signed_link(&link(sname, &[], &[("x", 1)]), &[&ka])).unwrap();
+            for f in &fields {
+                n += 1;
+                let d = tmpdir();
+                let fname = format!("{}.{}.link", sname, f);
+                if std::fs::write(d.path().join(&fname), &good).is_err() { continue; }
+                if let Err(p) = no_panic(|| { let _ = in_toto_verify(&lay_n, owner_keys(&[&owner]), d.path().to_str().unwrap(), None); }) {
+                    if panics.len() < 5 { panics.push(format!("link dir file name {:?}: {}", fname, p)); }
+                }
+            }
+        }
+    }
     {   // a directory where a link file is expected, and a sub-layout without its directory
         let d = tmpdir();
         std::fs::create_dir_all(d.path().join(format!("a.{}.link", ka.key_id().prefix()))).unwrap();
